@@ -89,6 +89,23 @@ def multi_package(rnd, feats=None):
     return lib, user, feats_used
 
 
+def xnames_program(rnd):
+    """identifiers that look like the minifier's own generated names (x1, x2, ...) used for things it keeps: parameters,
+    top-level set variables, exports, quoted data, keyword-bound names"""
+    n = lambda: "x%d" % rnd.randrange(1, 6)
+    a, b, c, d = n(), n(), n(), n()
+    forms = [[S("set"), Q(S(a)), 5],
+             [S("defun"), S("f"), [S(b)], [S("let"), [[S("y"), 2], [S("z"), 3]], [S("list"), S(b), S("y"), S("z"), S(a)]]],
+             [S("defun"), S("g"), [S("p"), S("&optional"), S(c)], [S("flet"), [[S("h"), [S("q")], [S("list"), S("q"), S(c)]]], [S("h"), S("p")]]],
+             [S("defun"), S(d + "-fn"), [], Q([S(a), S(b), S("x1")])],
+             [S("probe"), Q(S("f")), [S("f"), 10]], [S("probe"), Q(S("g")), [S("g"), 1, 2]], [S("probe"), Q(S("data")), [S(d + "-fn")]],
+             [S("probe"), Q(S("var")), S(a)]]
+    if rnd.random() < 0.5:
+        forms = [[S("in-package"), Q(S("lib"))], [S("defun"), S("x1"), [], 7], [S("defun"), S("helper"), [], [S("let"), [[S("t1"), 1]], [S("+"), S("t1"), [S("x1")]]]],
+                 [S("export"), Q(S("x1"))], [S("in-package"), Q(S("user"))], [S("use-package"), Q(S("lib"))], [S("probe"), Q(S("exported")), [S("x1")], [S("lib:helper")]]] + forms[1:-1]
+    return forms
+
+
 def static_refs(e):
     """the property covers programs whose names are resolved statically: a quoted symbol handed to funcall / apply
     names a function at RUN time, so such references are rewritten to ordinary (statically resolved) ones"""
@@ -163,6 +180,8 @@ def _run(V, work, tier):
             sessions.append(("pkg2files%d" % i, [P.src(lib), P.src(user)], True, feats))
     for i in range(200 if thorough else 40):
         sessions.append(("random%d" % i, [P.src(static_refs(c01.random_program(rnd)))], False, None))
+    for i in range(120 if thorough else 30):
+        sessions.append(("xnames%d" % i, [P.src(xnames_program(rnd))], False, None))
     OPTS = [("default", {"preserve_params": True}), ("rename-params", {"preserve_params": False}),
             ("rename-exports", {"preserve_params": True, "rename_exports": True}), ("exclusions", {"preserve_params": True, "exclusions": ["f0", "x", "helper", "tmp"]})]
     mrecs, meta = [], {}
